@@ -86,14 +86,20 @@ Justified(t) == lastOk[t] = Inputs(t)
 \* C02's antecedent for task t in the current state
 MustSkip(t) == /\ Inputs(t) # {} /\ ~MissingLit(t)
                /\ Justified(t) /\ ~lastFailed[t]
-\* the same, judged on the files a task of the observed invocation saw when its turn came.  The commands of the explored programs do
-\* not touch dependency files, with one exception: a generator task that runs before its consumer and always writes the same thing,
-\* so that what the consumer sees is what the invocation leaves behind (fs'); for every other program fs' = fs
-InputsSeen(t)     == {<<f, fs'[f]>> : f \in {g \in LitDeps(t) \cup GlobCand(t) : fs'[g] # Absent}}
-MissingLitSeen(t) == \E f \in LitDeps(t) : fs'[f] = Absent
-JustifiedSeen(t)  == lastOk[t] = InputsSeen(t)
-MustSkipSeen(t)   == InputsSeen(t) # {} /\ ~MissingLitSeen(t) /\ JustifiedSeen(t) /\ ~lastFailed[t]
-WrongSkips(obs) == {r \in Rep(obs) : r.skipped /\ ~JustifiedSeen(r.t)}
+\* the inputs of t in the file state g
+InputsIn(g, t) == {<<f, g[f]>> : f \in {h \in LitDeps(t) \cup GlobCand(t) : g[h] # Absent}}
+\* the same, judged on the files a task of the observed invocation saw WHEN ITS TURN CAME.  A task of the run may write a file that a
+\* later task of the same run depends on (a generator before its consumer; a rewriting task between two tasks that share a file), so
+\* neither the invocation's start state fs nor its end state fs' is what every task saw.  An observation of the real code carries, per
+\* task, the files as they were when the task's turn came (obs.seen[t]) and when its last command had finished (obs.done[t]); where
+\* an observation has no such entry (the protocol model, whose commands write no dependency files) the end state fs' stands in.
+SeenFs(obs, t) == IF "seen" \in DOMAIN obs /\ t \in DOMAIN obs.seen THEN obs.seen[t] ELSE fs'
+DoneFs(obs, t) == IF "done" \in DOMAIN obs /\ t \in DOMAIN obs.done THEN obs.done[t] ELSE fs'
+InputsSeen(obs, t)     == InputsIn(SeenFs(obs, t), t)
+MissingLitSeen(obs, t) == \E f \in LitDeps(t) : SeenFs(obs, t)[f] = Absent
+JustifiedSeen(obs, t)  == lastOk[t] = InputsSeen(obs, t)
+MustSkipSeen(obs, t)   == InputsSeen(obs, t) # {} /\ ~MissingLitSeen(obs, t) /\ JustifiedSeen(obs, t) /\ ~lastFailed[t]
+WrongSkips(obs) == {r \in Rep(obs) : r.skipped /\ ~JustifiedSeen(obs, r.t)}
 
 Violations(obs) ==
   LET quiet == ~crashed /\ ~obs.killed                       \* crash-free history so far
@@ -105,7 +111,7 @@ Violations(obs) ==
   \* "skipped" means none of its commands executed (C01: a skip is a skip; C02: executes none of its commands)
   \cup (IF \E r \in Rep(obs) : r.skipped /\ Executed(obs, r.t) THEN {"SkipRan"} ELSE {})
   \* C02: unchanged since last success => none of its commands run and it is reported skipped
-  \cup (IF quiet /\ ~obs.force /\ \E t \in Tasks : MustSkipSeen(t) /\
+  \cup (IF quiet /\ ~obs.force /\ \E t \in Tasks : MustSkipSeen(obs, t) /\
              (Executed(obs, t) \/ \E r \in Rep(obs) : r.t = t /\ ~r.skipped) THEN {"C02"} ELSE {})
   \* C02: tasks without any file dependency always run
   \cup (IF \E r \in Rep(obs) : r.skipped /\ ~HasFileDeps(r.t) THEN {"C02n"} ELSE {})
@@ -123,15 +129,13 @@ Violations(obs) ==
   \cup (IF (crashed \/ obs.killed) /\
            (\/ WrongSkips(obs) # {}
             \/ obs.outcome = "panic"
-            \/ (obs.outcome = "error" /\ obs.errcls \notin {"cache", "runner"} /\ ~\E t \in clo : MissingLitSeen(t) \/ MissingLit(t)))
+            \/ (obs.outcome = "error" /\ obs.errcls \notin {"cache", "runner"} /\ ~\E t \in clo : MissingLitSeen(obs, t) \/ MissingLit(t)))
         THEN {"C10"} ELSE {})
 
-\* the inputs of t in the file state g
-InputsIn(g, t) == {<<f, g[f]>> : f \in {h \in LitDeps(t) \cup GlobCand(t) : g[h] # Absent}}
-\* (fs' has to be determined before Observe is evaluated: the inputs of a task's last success are those it completed on, i.e. the
-\*  files as the invocation leaves them -- the same as fs unless a task of the run itself wrote a dependency file)
+\* (fs' has to be determined before Observe is evaluated.)  The inputs of a task's last success are those it completed on: the files
+\* as they were when its last command had finished
 Observe(obs) ==
-  /\ lastOk'     = [t \in Tasks |-> IF Succeeded(obs, t) THEN InputsIn(fs', t) ELSE lastOk[t]]
+  /\ lastOk'     = [t \in Tasks |-> IF Succeeded(obs, t) THEN InputsIn(DoneFs(obs, t), t) ELSE lastOk[t]]
   /\ lastFailed' = [t \in Tasks |-> IF Executed(obs, t) THEN ~Succeeded(obs, t) ELSE lastFailed[t]]
   /\ forcedT'    = [t \in Tasks |-> forcedT[t] \/ (obs.force /\ Executed(obs, t))]
   /\ crashed'    = (crashed \/ obs.killed)
